@@ -26,7 +26,8 @@ from .symbytes import (SymBytes, SymStr, _SymSeq, any_sym, lift, sym_format,
                        parse_int, render_int, items_of, decode_items,
                        encode_items)
 
-REPO = '/repo'
+import os as _os_env
+REPO = _os_env.environ.get('VERIF_REPO') or '/repo'
 
 # ------------------------------------------------------------------ builtins
 _real_bytes = bytes
